@@ -68,10 +68,15 @@ def main(argv=None):
     except (extract.ExtractError, report.CheckerFailure) as e:
         print("CHECKER-FAILURE property=%s: %s" % (prop, e))
         return 2
-    except Exception:
-        print("CHECKER-FAILURE property=%s: internal error" % prop)
+    except Exception as e:
+        # a rule could not be evaluated on this tree: the code no longer has the shape the rule was
+        # confirmed on.  That is reported as a violation of that rule (fail closed), with the cause.
+        tb = traceback.extract_tb(e.__traceback__)
+        where = "%s:%d %s" % (tb[-1].filename.rsplit("/", 1)[-1], tb[-1].lineno, tb[-1].name) if tb else "?"
         traceback.print_exc()
-        return 2
+        run.ob("checker.shape-not-recognised", "rule pack %s" % prop, False,
+               "a rule of this pack could not be evaluated on the current tree (%s: %s at %s): the mechanism it was confirmed on has changed and its obligations must be re-confirmed" % (
+                   type(e).__name__, str(e)[:120], where), key="checker.shape|%s|%s" % (prop, where))
     return run.finish(cmd)
 
 
